@@ -31,6 +31,11 @@ def run(tier, argv):
         if k == 0:
             raise vlib.Infra("GenGraph gave no accepted graph")
         files.append(cases)
+    # the builder as an algorithm (ExBuild, I layer): TLC has just checked ExampleValid on every accepted graph above; the switch that
+    # restores the pinned tree's behaviour (a required key dropped where the recursion is cut) must still break it
+    rv = vlib.tlc(work, "GenGraph", "GenGraph.cfg", consts={"NTypes": "2", "Level": "1", "DropRequiredAtCut": "TRUE"}, allow_violation=True, timeout=1200)
+    if not rv.violation:
+        raise vlib.Infra("vacuous: switch DropRequiredAtCut no longer violates ExampleValid")
     tr = work.path("trace.ndjson")
     p = vlib.run_harness(hbin, ["c15trace", "-cases", ",".join(files), "-out", tr], timeout=3000)
     if p.returncode != 0:
